@@ -114,7 +114,7 @@ ProbeBase ==
   IF part = "shape"
   THEN /\ origin = "static" /\ host = "none" /\ mname \in {"x", "pkg"} /\ doc = (IF kind = "alias" THEN "absent" ELSE "plain")
        /\ pdoc = FALSE /\ deco \in {NA, "call"} /\ pann \in {NA, "name"} /\ pdef \in {NA, "str"} /\ ret \in {NA, "name"}
-       /\ bases \in {NA, "name"} /\ val \in {NA, "str"} /\ ann \in {NA, "name"} /\ resolved = FALSE /\ where = "container"
+       /\ bases \in {NA, "name"} /\ val \in {NA, "str"} /\ ann \in {NA, "name"} /\ resolved = FALSE /\ where = "container" /\ guard = "none"
   ELSE part = "doc" /\ origin = "static" /\ kind = "function" /\ section \in {"parameters", "admonition"}
 
 InitS ==
